@@ -490,7 +490,12 @@ impl Report {
         // Second pass in a permuted case order (cheap sub-runs only): the subject functions are pure, so a case
         // that passes in index order but fails after a different predecessor on its thread reveals state carried
         // across calls (a cache, a static, a reused buffer). Only violations are kept from this pass.
-        if self.one.is_none() && n >= 2 && n <= 1_000_000 && t0.elapsed().as_secs_f64() < 1.5 && std::env::var("AGV_NO_REORDER").is_err() {
+        // Whether the pass runs is decided by the sub-run's declared size and watchdog class (decoder-class sub-runs:
+        // always), so that detection does not depend on machine load; other small sub-runs get it when they were quick.
+        // Skipped: sub-runs whose cases run in fresh processes (no shared state) and the 66 KB length sweep.
+        const NO_SECOND_PASS: [&str; 4] = ["all-lengths", "double-cuts", "program-level-cuts", "sequences-x-file-splits"];
+        let decoder_class = hang_s <= 120 && !NO_SECOND_PASS.contains(&name);
+        if self.one.is_none() && n >= 2 && n <= 1_000_000 && (decoder_class || t0.elapsed().as_secs_f64() < 1.5) && std::env::var("AGV_NO_REORDER").is_err() {
             let mut a = (n as f64 * 0.618_033_988_7) as u64 | 1;
             fn gcd(mut x: u64, mut y: u64) -> u64 {
                 while y != 0 {
